@@ -60,6 +60,9 @@ def instances(tier):
                 out.append({"kind": "rx", "gen": g, "payload": n, "where": where})
         # history: damaged frames again and again (one per connection): each is rejected, each time the connection comes back
         out.append({"kind": "rx_repeat", "gen": g, "count": 6 if tier == "quick" else 12})
+        # the damaged frame is followed, in the same segment, by the beginning of a frame that never completes on that connection
+        out.append({"kind": "rx", "gen": g, "payload": 2, "where": "crc", "trailing": True})
+        out.append({"kind": "rx", "gen": g, "payload": 2, "where": "data", "trailing": True})
         for where in ("addr", "data", "crc"):
             # history: the intact frame is received first, its damaged copy right behind it
             out.append({"kind": "rx", "gen": g, "payload": 2, "where": where, "after_good": True})
@@ -222,6 +225,8 @@ def _run_rx(ctx, p):
                     if p.get("after_good"):
                         conn.send(SymBytes(list(good)) if ctx.symbolic else bytes(good))
                     conn.send(SymBytes(bad) if ctx.symbolic else bytes(bad))
+                    if p.get("trailing"):
+                        conn.send(bytes(probe[:5]))          # the start of a further frame; the rest never arrives on this connection
                 elif conn.index == 1:
                     conn.send(bytes(probe))
             rig.net.on_accept = on_accept
